@@ -66,6 +66,7 @@ Section Frame.
   Proof.
     intros s m H. unfold harmless in H. unfold msg_ok.
     destruct (m_type m) eqn:Et; try discriminate; repeat split; intros; try discriminate; try congruence.
+    apply orb_true_iff in H as [H|H]; [congruence|]. apply Nat.eqb_eq in H. lia.
   Qed.
 
   (* ---------------------------------------------------------------- one node, same log; votes may be added *)
